@@ -352,6 +352,16 @@ int main(int argc, char **argv) {
     if (w.size() == 5 && w[0] == "case" && is_int(w[2]) && is_int(w[3]) && unhex(w[4], data)) {
       if (flush) { std::fprintf(stderr, "BEGIN %s\n", w[1].c_str()); std::fflush(stderr); }
       do_case(w[1], std::atoi(w[2].c_str()), std::atoi(w[3].c_str()), data);
+    } else if (w.size() == 3 && w[0] == "fileerr") {
+      // OS-level failure of the file path: the call must end in an exception (fmt::SystemError)
+      std::string dirp = g_path.substr(0, g_path.rfind('/'));
+      std::string path = w[2] == "directory" ? dirp : (dirp + "/c02-does-not-exist.nl");
+      std::string saved = g_path; g_path = path;
+      std::string o1, o2;
+      { Rec a(-1); o1 = run_file(a, 0); }
+      { mp::Problem p; o2 = run_file(p, 1); }
+      g_path = saved;
+      std::printf("%s fileerr %s %s\n", w[1].c_str(), o1.c_str(), o2.c_str());
     } else if (w.size() == 2 && w[0] == "strtod" && unhex(w[1], data) && data.find('\0') == std::string::npos) {
       do_strtod(data);
     } else {
